@@ -27,7 +27,8 @@ data; sequential and Blelloch scans return the global scan.  What is proved here
   own depth — or any larger one — and no side condition left), `treeDepthLast_refuted` (depth from the last axis only);
 * var / std / moment(order 2): `var_eq_numpy` (the Chan–Pébay merge of `moment_combine` over ℚ = the two-pass formula, empty
   blocks included, `none` iff `n ≤ ddof`), `nanvar_eq_numpy`, `var_chunking_irrelevant` (1-d / one reduced axis per kept cell);
-Not proved (validated by the correspondence check): float round-off, moments of order ≥ 3, var over several axes at once, the other nan-variants,
+* `nansum/nanprod/nanmin/nanmax/nanmean_eq_numpy` (NaN = `none`, dropped block by block);
+Not proved (validated by the correspondence check): float round-off, moments of order ≥ 3, var over several axes at once, nanstd/nanarg*/nancumsum,
 arg-reductions over several axes, median/quantile glue.
 -/
 namespace Dask.C22
@@ -956,6 +957,41 @@ example : (redVar 0).run1 2 2 [[1, 2], [], [6]] = some [some (14 / 3)] ∧ (redV
   · rw [var_eq_numpy 1 2 1 (by decide) _ (by simp) (by decide)]; decide +kernel
 
 end variance
+
+/-! ## nan-variants: `nansum`, `nanprod`, `nanmin`, `nanmax`, `nanmean` drop the NaN entries (`none`) block by block
+(`chunk.nansum`, `nannumel`, `_nanmin_skip` …) — the result is the plain reduction of the non-NaN data -/
+
+theorem nansum_eq_numpy (k depth : Nat) (hk : k ≠ 0) (blocks : List (List (Option Int))) (hne : blocks ≠ [])
+    (hd : blocks.length ≤ k ^ depth) :
+    redSum.run1 k depth (blocks.map (List.filterMap id)) = some [isum (blocks.flatten.filterMap id)] := by
+  rw [sum_eq_numpy k depth hk _ (by simpa using hne) (by simpa using hd), filterMap_id_flatten]
+
+theorem nanprod_eq_numpy (k depth : Nat) (hk : k ≠ 0) (blocks : List (List (Option Int))) (hne : blocks ≠ [])
+    (hd : blocks.length ≤ k ^ depth) :
+    redProd.run1 k depth (blocks.map (List.filterMap id)) = some [iprod (blocks.flatten.filterMap id)] := by
+  rw [prod_eq_numpy k depth hk _ (by simpa using hne) (by simpa using hd), filterMap_id_flatten]
+
+/-- `none` = every entry is NaN (NumPy: RuntimeWarning "All-NaN slice", result NaN) or there is no data -/
+theorem nanmin_eq_numpy (k depth : Nat) (hk : k ≠ 0) (blocks : List (List (Option Int))) (hne : blocks ≠ [])
+    (hd : blocks.length ≤ k ^ depth) :
+    redMin.run1 k depth (blocks.map (List.filterMap id)) = some [imin? (blocks.flatten.filterMap id)] := by
+  rw [min_eq_numpy k depth hk _ (by simpa using hne) (by simpa using hd), filterMap_id_flatten]
+
+theorem nanmax_eq_numpy (k depth : Nat) (hk : k ≠ 0) (blocks : List (List (Option Int))) (hne : blocks ≠ [])
+    (hd : blocks.length ≤ k ^ depth) :
+    redMax.run1 k depth (blocks.map (List.filterMap id)) = some [imax? (blocks.flatten.filterMap id)] := by
+  rw [max_eq_numpy k depth hk _ (by simpa using hne) (by simpa using hd), filterMap_id_flatten]
+
+theorem nanmean_eq_numpy (k depth : Nat) (hk : k ≠ 0) (blocks : List (List (Option Int))) (hne : blocks ≠ [])
+    (hd : blocks.length ≤ k ^ depth) :
+    redMean.run1 k depth (blocks.map (List.filterMap id))
+      = some [(isum (blocks.flatten.filterMap id), ((blocks.flatten.filterMap id).length : Int))] := by
+  rw [mean_eq_numpy k depth hk _ (by simpa using hne) (by simpa using hd), filterMap_id_flatten]
+
+example : redSum.run1 2 2 ([[some 1, none], [], [none, some 5]].map (List.filterMap id)) = some [6] := by
+  rw [nansum_eq_numpy 2 2 (by decide) _ (by simp) (by decide)]; decide
+example : redMin.run1 2 1 ([[none, none], [none]].map (List.filterMap id)) = some [none] := by
+  rw [nanmin_eq_numpy 2 1 (by decide) _ (by simp) (by decide)]; decide
 
 /-! ## K2: cumulative reductions -/
 section scans
